@@ -247,6 +247,16 @@ func registerSyncIntrinsics() {
 			ex.store(p, nv)
 			return nv
 		}
+		I["sync/atomic.Swap"+w] = func(ex *Exec, a []Value) Value {
+			// sequential: exchange; concurrent: one read-modify-write event whose written value is the operand
+			if ex.conc != nil {
+				return ex.concAtomic("swap", a[0].(*Ptr), a[1].(*Term), nil)
+			}
+			p := a[0].(*Ptr)
+			old := ex.load(p)
+			ex.store(p, a[1])
+			return old
+		}
 		I["sync/atomic.CompareAndSwap"+w] = func(ex *Exec, a []Value) Value {
 			if ex.conc != nil {
 				return ex.concAtomic("cas", a[0].(*Ptr), a[1].(*Term), a[2].(*Term))
@@ -286,6 +296,9 @@ func registerTypedAtomics() {
 		}
 		I["(*sync/atomic."+w+").Add"] = func(ex *Exec, a []Value) Value {
 			return intrinsics["sync/atomic.Add"+w](ex, []Value{field(ex, w, a[0].(*Ptr)), a[1]})
+		}
+		I["(*sync/atomic."+w+").Swap"] = func(ex *Exec, a []Value) Value {
+			return intrinsics["sync/atomic.Swap"+w](ex, []Value{field(ex, w, a[0].(*Ptr)), a[1]})
 		}
 		I["(*sync/atomic."+w+").CompareAndSwap"] = func(ex *Exec, a []Value) Value {
 			return intrinsics["sync/atomic.CompareAndSwap"+w](ex, []Value{field(ex, w, a[0].(*Ptr)), a[1], a[2]})
